@@ -123,7 +123,8 @@ def cfgpoly(p, tok):
         c["gen"] = bool(getattr(v, "generated_id", False))
     sv = list(p.variables)[0]
     out = {"rows": rows, "cols": cols, "support": {"id": tok(sv.id), "lo": I(sv.bounds.lower), "hi": I(sv.bounds.upper)},
-           "index": [tok(getattr(v, "id", v)) for v in list(p.index)], "dtype": str(p.dtype)}
+           "index": [tok(getattr(v, "id", v)) for v in list(p.index)], "dtype": str(p.dtype),
+           "index_kind": ["var" if is_var(v) else type(v).__name__ for v in list(p.index)]}
     dpv = getattr(p, "default_prio_vector", None)
     out["dpv"] = [I(x) for x in numpy.asarray(dpv).tolist()] if dpv is not None else []
     return out
